@@ -151,15 +151,18 @@ type Sim struct {
 	steps   int
 	stopped bool
 	// observers
-	onRaftMsg  func(from *simNode, to uint64, group uuid.UUID, m raftpb.Message)
-	onApply    func(a applyRec)
-	onIO       func(n *simNode, group uuid.UUID, op string, before bool)
-	pauseHook  func(nodeId uint64, partition uuid.UUID, point string)
-	searchLegs []searchLeg
-	rpcCount   map[string]int
-	faultsOn   bool
-	release    chan struct{}
-	paused     int
+	onRaftMsg      func(from *simNode, to uint64, group uuid.UUID, m raftpb.Message)
+	onApply        func(a applyRec)
+	onIO           func(n *simNode, group uuid.UUID, op string, before bool)
+	pauseHook      func(nodeId uint64, partition uuid.UUID, point string)
+	searchLegs     []searchLeg
+	rpcCount       map[string]int
+	faultsOn       bool
+	release        chan struct{}
+	paused         int
+	closing        bool
+	deadTransports []*raft.RaftTransport // of crashed incarnations: groups they start later must be stopped too
+	killedGroups   map[*raft.RaftGroup]bool
 }
 
 type searchLeg struct {
@@ -175,8 +178,16 @@ var curSim *Sim
 
 func (s *Sim) now() time.Duration { return time.Since(s.t0) }
 
+var liveLog *os.File
+
 func (s *Sim) logf(f string, a ...interface{}) {
 	line := fmt.Sprintf(f, a...)
+	if p := os.Getenv("VERIF_LIVELOG"); p != "" {
+		if liveLog == nil {
+			liveLog, _ = os.OpenFile(fmt.Sprintf("%s.%d", p, os.Getpid()), os.O_CREATE|os.O_WRONLY|os.O_APPEND, 0644)
+		}
+		fmt.Fprintf(liveLog, "seed=%d t=%-8s %s\n", s.cfg.Seed, s.now().Round(time.Millisecond), line)
+	}
 	s.h = simrt.HashBytes(s.h, []byte(line))
 	if s.wantLog {
 		s.log = append(s.log, fmt.Sprintf("t=%-8s %s", s.now().Round(time.Millisecond), line))
@@ -261,6 +272,10 @@ func w3Global() {
 		logrus.SetOutput(io.Discard)
 		devNull, _ = os.OpenFile(os.DevNull, os.O_WRONLY, 0)
 		logrus.SetLevel(logrus.ErrorLevel)
+		if os.Getenv("VERIF_PRODLOG") != "" { // debugging aid: the product's own log lines
+			logrus.SetOutput(realStderr)
+			logrus.SetLevel(logrus.InfoLevel)
+		}
 		logrus.AddHook(fatalHook{})
 		logrus.StandardLogger().ExitFunc = func(code int) {
 			// log.Fatal: the process would exit. Here the calling goroutine ends
@@ -275,7 +290,7 @@ func newSim(cfg W3Cfg, out *Outcome, wantLog bool) *Sim {
 	w3Global()
 	s := &Sim{cfg: cfg, out: out, wantLog: wantLog, t0: time.Now(), baseDir: scratchRunDir(),
 		byId: map[uint64]*simNode{}, byAddr: map[string]*simNode{}, byDB: map[*badger.DB]*simNode{}, dbInc: map[*badger.DB]int{},
-		blocked: map[[2]uint64]bool{}, rpcCount: map[string]int{}, release: make(chan struct{})}
+		blocked: map[[2]uint64]bool{}, rpcCount: map[string]int{}, release: make(chan struct{}), killedGroups: map[*raft.RaftGroup]bool{}}
 	root := simrt.NewRand(cfg.Seed)
 	s.rnet = root.Split("net")
 	s.rfault = root.Split("fault")
@@ -383,10 +398,34 @@ func (s *Sim) park() {
 }
 
 func (s *Sim) close() {
+	// End of the run: every node goes down (raft groups stopped, databases still open),
+	// then simulated time runs on for a while with a dead network so that every
+	// goroutine of this run that is still waiting for a timeout or a lock gets its turn;
+	// raft groups such goroutines start are stopped at once. Only then are the databases
+	// closed, so that nothing can read from a closed database while the bubble winds down.
+	s.closing = true
+	var dbs []*badger.DB
 	for _, n := range s.nodes {
 		if n.alive {
+			if n.parts != nil {
+				dbs = append(dbs, n.parts.DB)
+			}
 			s.stopNode(n, false)
 		}
+	}
+	for i := 0; i < 2500; i++ {
+		time.Sleep(simQuantum)
+		synctest.Wait()
+		s.mu.Lock()
+		s.inbox, s.calls = nil, nil
+		s.mu.Unlock()
+		s.reapZombies()
+	}
+	for _, db := range dbs {
+		func() {
+			defer func() { recover() }()
+			db.Close()
+		}()
 	}
 	s.stopped = true
 	close(s.release)
@@ -533,16 +572,20 @@ func (s *Sim) stopNode(n *simNode, crash bool) {
 	// nothing of the dead incarnation may touch the log store any more
 	for _, g := range p.RaftTransport.VerifGroups() {
 		g.VerifKill()
+		s.killedGroups[g] = true
 	}
+	s.deadTransports = append(s.deadTransports, p.RaftTransport)
 	// The allocator goroutine is left alone: it is blocked, nothing of this
 	// incarnation can wake it any more, and Allocator.Stop closes a channel
 	// that an apply goroutine of the same incarnation may be blocked sending on.
 	synctest.Wait()
 	delete(s.byDB, p.DB)
-	func() {
-		defer func() { recover() }()
-		p.DB.Close()
-	}()
+	if !s.closing {
+		func() {
+			defer func() { recover() }()
+			p.DB.Close()
+		}()
+	}
 	n.server.VerifForget()
 	n.parts = nil
 	s.logf("n%d down (crash=%v)", n.idx, crash)
@@ -555,6 +598,18 @@ func (s *Sim) stopNode(n *simNode, crash bool) {
 // simulated disk boundary (hook H3)
 
 func (s *Sim) ioHook(db *badger.DB, group uuid.UUID, op string, before bool) error {
+	if op == "read" {
+		// Reads only matter once an incarnation's database is closed: a goroutine of it
+		// that is still around must not touch it. Until then (stopNode is still taking
+		// the groups down, which needs their raft goroutines) reads go through.
+		if _, known := s.dbInc[db]; !known || s.byDB[db] != nil {
+			return nil
+		}
+		if s.stopped {
+			runtime.Goexit()
+		}
+		s.park()
+	}
 	n := s.byDB[db]
 	if n == nil {
 		// database of a server that is still inside setup(): find by alive node without parts
@@ -566,7 +621,7 @@ func (s *Sim) ioHook(db *badger.DB, group uuid.UUID, op string, before bool) err
 	}
 	if n == nil || s.stopped {
 		if s.stopped {
-			return nil
+			runtime.Goexit() // the run is over: nothing is written any more
 		}
 		s.park() // write attempt of a dead incarnation: never happens
 	}
@@ -1054,10 +1109,29 @@ func (s *Sim) pump() {
 
 const simQuantum = 10 * time.Millisecond
 
+// reapZombies stops raft groups that a goroutine of a crashed incarnation
+// started after the crash (e.g. an allocator that was waiting for a lock): the
+// incarnation's database is closed, nothing of it may run a raft loop.
+func (s *Sim) reapZombies() {
+	for _, t := range s.deadTransports {
+		for _, g := range t.VerifGroups() {
+			if !s.killedGroups[g] {
+				// not waited for: the group's raft goroutine may already be parked at a read
+				go g.VerifKill()
+				s.killedGroups[g] = true
+				s.out.Stat("zombie_groups_reaped", 1)
+			}
+		}
+	}
+}
+
 // step advances the simulation by one event (or one quantum of idle time).
 func (s *Sim) step() {
 	s.steps++
 	s.pump()
+	if len(s.deadTransports) > 0 {
+		s.reapZombies()
+	}
 	if len(s.events) == 0 {
 		time.Sleep(simQuantum)
 		return
